@@ -179,30 +179,51 @@ type Case struct {
 	Ops        []Op   `json:"ops"`
 }
 
-func nid(i int) el.NodeID {
-	if i == 0 {
+// Identifiers are opaque strings: the names used are look-alikes of one another (case, surrounding white space, a
+// trailing NUL, a non-ASCII twin), so that any normalisation or prefix comparison of ids in the registry merges or
+// confuses what the model keeps apart.
+func lookalike(prefix string, i int) string {
+	switch i {
+	case 0:
 		return ""
+	case 1:
+		return prefix
+	case 2:
+		return strings.ToUpper(prefix)
+	case 3:
+		return prefix + " "
+	case 4:
+		return " " + prefix
+	case 5:
+		return prefix + "\t"
+	case 6:
+		return prefix + "\x00"
+	case 7:
+		return prefix + prefix
+	case 8:
+		return "\u00e9" + prefix
 	}
-	return el.NodeID(fmt.Sprintf("n%d", i))
+	return fmt.Sprintf("%s%d", prefix, i)
 }
-func pid(i int) el.PipelineID {
-	if i == 0 {
-		return ""
+
+var unNames = func() map[string]int {
+	m := map[string]int{"": 0}
+	for _, pre := range []string{"n", "p", "t"} {
+		for i := 1; i < 64; i++ {
+			m[lookalike(pre, i)] = i
+		}
 	}
-	return el.PipelineID(fmt.Sprintf("p%d", i))
-}
-func ety(i int) el.EventType {
-	if i == 0 {
-		return ""
-	}
-	return el.EventType(fmt.Sprintf("t%d", i))
-}
+	return m
+}()
+
+func nid(i int) el.NodeID     { return el.NodeID(lookalike("n", i)) }
+func pid(i int) el.PipelineID { return el.PipelineID(lookalike("p", i)) }
+func ety(i int) el.EventType  { return el.EventType(lookalike("t", i)) }
 func unN(s string) int {
-	if s == "" {
-		return 0
+	i, ok := unNames[s]
+	if !ok {
+		panic(fmt.Sprintf("unknown identifier %q in the snapshot", s))
 	}
-	var i int
-	fmt.Sscanf(s[1:], "%d", &i)
 	return i
 }
 func ntype(t int) el.NodeType {
